@@ -56,7 +56,9 @@ def rows(cat):
 
 
 def same(a, b):
-    return len(a) == len(b) and all(list(x) == list(y) for x, y in zip(a, b))
+    def eq(u, v):
+        return u == v or (isinstance(u, float) and isinstance(v, float) and u != u and v != v)      # NaN equals NaN here
+    return len(a) == len(b) and all(len(x) == len(y) and all(eq(u, v) for u, v in zip(x, y)) for x, y in zip(a, b))
 
 
 def check_case(ctx, case):
@@ -65,6 +67,11 @@ def check_case(ctx, case):
     from csep.core.catalogs import CSEPCatalog
     import csep
     events = [tuple(e) for e in case["events"]]
+    if case.get("nan_depth"):
+        # depth unknown (NaN): no comparison on depth is true for such an event, whatever the operator and however the statements
+        # are grouped
+        events = [tuple(e[:4]) + (float("nan"),) + tuple(e[5:]) if i in case["nan_depth"] else e for i, e in enumerate(events)]
+        ctx.count("cases_with_nan_depth")
     stmts = case["stmts"]
     strs = [statement(s) for s in stmts]
     want = ref_filter(events, stmts)
@@ -178,7 +185,7 @@ def check_case(ctx, case):
         else:
             if o.value is src:
                 ctx.violation("not_in_place_returned_self", None)
-            if not numpy.array_equal(src.catalog, before) or src.event_count != len(events):
+            if src.event_count != len(events) or not same([list(r) for r in src.catalog.tolist()], [list(r) for r in before.tolist()]):
                 ctx.violation("not_in_place_mutated_source", {"n_before": len(events), "n_after": src.event_count})
             if o.value is not src and src.event_count and numpy.shares_memory(o.value.catalog, src.catalog) and o.value.event_count:
                 # a view would let later in-place edits of one catalog reach the other
@@ -286,6 +293,8 @@ def cases(draw, max_events=40):
     case = {"k": "filter", "events": ev, "stmts": stmts, "plan": plan, "in_place": draw(st.booleans())}
     if draw(st.integers(0, 3)) == 0:
         case["positional"] = True
+    if n and plan not in ("load_catalog",) and draw(st.integers(0, 3)) == 0:
+        case["nan_depth"] = sorted(set(draw(st.lists(st.integers(0, n - 1), min_size=1, max_size=3))))
     if plan in ("chained", "permuted", "stale_then_empty", "ctor_filters_then_filter"):
         case["order"] = list(draw(st.permutations(list(range(ns)))))
     if plan == "load_catalog" and draw(st.integers(0, 2)) > 0:
